@@ -6,6 +6,7 @@ package main
 // call is repeated on the same argument objects: the second result must equal the first.
 
 import (
+	"bytes"
 	stdecdsa "crypto/ecdsa"
 	"crypto/elliptic"
 	"crypto/sha256"
@@ -18,8 +19,9 @@ import (
 )
 
 type bigCase struct {
-	Op    string `json:"op"`
-	Curve string `json:"curve"`
+	Op       string `json:"op"`
+	Curve    string `json:"curve"`
+	BigBlind bool   `json:"blinding_key_above_the_group_order,omitempty"`
 }
 
 var bigCurves = map[string]elliptic.Curve{"P-224": elliptic.P224(), "P-256": elliptic.P256(), "P-384": elliptic.P384(), "P-521": elliptic.P521()}
@@ -66,6 +68,12 @@ func runBig(c bigCase) (string, *mc.Viol) {
 		return &ecdsa.PrivateKey{PublicKey: ecdsa.PublicKey{Curve: curve, X: x, Y: y}, D: d}
 	}
 	priv, bk := mkKey("sk"), mkKey("bk")
+	if c.BigBlind {
+		// a blinding key made from raw bytes above the group order (CreateKey does not reduce it)
+		raw := bytes.Repeat([]byte{0xff}, (N.BitLen()+7)/8)
+		x, y := curve.ScalarBaseMult(raw)
+		bk = &ecdsa.PrivateKey{PublicKey: ecdsa.PublicKey{Curve: curve, X: x, Y: y}, D: new(big.Int).SetBytes(raw)}
+	}
 	pub := &ecdsa.PublicKey{Curve: curve, X: new(big.Int).Set(priv.X), Y: new(big.Int).Set(priv.Y)}
 	hash := sha256.Sum256([]byte("c16 big " + c.Curve))
 	std := &stdecdsa.PrivateKey{PublicKey: stdecdsa.PublicKey{Curve: curve, X: new(big.Int).Set(priv.X), Y: new(big.Int).Set(priv.Y)}, D: new(big.Int).Set(priv.D)}
@@ -74,7 +82,8 @@ func runBig(c bigCase) (string, *mc.Viol) {
 		return "harness", nil
 	}
 	der, _ := stdecdsa.SignASN1(mc.NewStream(seedv, "c16-big-sign-asn1"+c.Curve), std, hash[:])
-	blinded, err := ecdsa.BlindPublicKeyWithContext(curve, &ecdsa.PublicKey{Curve: curve, X: new(big.Int).Set(priv.X), Y: new(big.Int).Set(priv.Y)}, mkKey("bk"), []byte("ctx"))
+	bkCopy := &ecdsa.PrivateKey{PublicKey: ecdsa.PublicKey{Curve: curve, X: new(big.Int).Set(bk.X), Y: new(big.Int).Set(bk.Y)}, D: new(big.Int).Set(bk.D)}
+	blinded, err := ecdsa.BlindPublicKeyWithContext(curve, &ecdsa.PublicKey{Curve: curve, X: new(big.Int).Set(priv.X), Y: new(big.Int).Set(priv.Y)}, bkCopy, []byte("ctx"))
 	if err != nil {
 		return "harness", nil
 	}
